@@ -124,3 +124,49 @@ type Bool struct{ v uint32 }
 
 func (x *Bool) Load() bool   { return LoadUint32(&x.v) != 0 }
 func (x *Bool) Store(v bool) { if v { StoreUint32(&x.v, 1) } else { StoreUint32(&x.v, 0) } }
+
+// Pointer mirrors atomic.Pointer[T].
+type Pointer[T any] struct{ p *T }
+
+func (x *Pointer[T]) Load() *T { pt("Pointer.Load", unsafe.Pointer(x)); return x.p }
+func (x *Pointer[T]) Store(v *T) { pt("Pointer.Store", unsafe.Pointer(x)); x.p = v }
+func (x *Pointer[T]) Swap(v *T) *T {
+	pt("Pointer.Swap", unsafe.Pointer(x))
+	o := x.p
+	x.p = v
+	return o
+}
+func (x *Pointer[T]) CompareAndSwap(old, new *T) bool {
+	pt("Pointer.CAS", unsafe.Pointer(x))
+	if x.p == old {
+		x.p = new
+		return true
+	}
+	return false
+}
+
+// Value mirrors atomic.Value.
+type Value struct{ v interface{} }
+
+func (x *Value) Load() interface{} { pt("Value.Load", unsafe.Pointer(x)); return x.v }
+func (x *Value) Store(v interface{}) {
+	if v == nil {
+		panic("sync/atomic: store of nil value into Value")
+	}
+	pt("Value.Store", unsafe.Pointer(x))
+	x.v = v
+}
+func (x *Value) Swap(v interface{}) interface{} {
+	pt("Value.Swap", unsafe.Pointer(x))
+	o := x.v
+	x.v = v
+	return o
+}
+func (x *Value) CompareAndSwap(old, new interface{}) bool {
+	pt("Value.CAS", unsafe.Pointer(x))
+	if x.v == old {
+		x.v = new
+		return true
+	}
+	return false
+}
